@@ -34,10 +34,10 @@ type c09Op struct {
 // c09Model follows the statement: a block per round holding the contents at
 // the moment the round began.
 type c09Model struct {
-	state   [][]any
-	blocks  [][][]any
-	failed  bool
-	ended   bool
+	state  [][]any
+	blocks [][][]any
+	failed bool
+	ended  bool
 }
 
 func (m *c09Model) snap() {
